@@ -10,6 +10,7 @@ def run(tree, rep, tier):
     T = Tables(tree)
     T.inventory(rep)
     flow = Flow(tree)
+    flow.describe(rep)
     A4_params(rep, flow, only=[FQ])
     P_rules(rep, flow, which=("P1", "P2"))
     T4_edges(rep, T, T.adv_stab)
